@@ -192,16 +192,24 @@ theorem devPure_ok (d : MesgDef) (dd : DevDef) (fdsc : Desc) (b : List Nat) (hv 
 
 /-- `t` agrees with `s` on everything the value-level functions read or write: options, look-ups, active timestamp,
 accumulator, messages, file id (NOT: stream, byte counter, running checksum, file header, error) -/
+def normDef (p : Nat × MesgDef) : Nat × MesgDef := (p.1, { p.2 with reserved := 0 })
+
+/-- the look-ups of the reconstruction against the decoder's: the same but for the reserved byte of the definitions, which
+(D) does not observe (and no value depends on) -/
+structure LookSh (l l' : Look) : Prop where
+  descs : l'.descs = l.descs
+  devIdx : l'.devIdx = l.devIdx
+  defs : l'.defs = l.defs.map normDef
+
 structure Shadow (s t : St) : Prop where
   o : t.o = s.o
-  look : t.look = s.look
+  look : LookSh s.look t.look
   ts : t.q.ts = s.q.ts
   lastOff : t.q.lastOff = s.q.lastOff
   acc : t.q.acc = s.q.acc
   msgs : t.q.msgs = s.q.msgs
   fileId : t.q.fileId = s.q.fileId
 
-theorem Shadow.refl (s : St) : Shadow s s := ⟨rfl, rfl, rfl, rfl, rfl, rfl, rfl⟩
 
 theorem Shadow.adv {s t : St} (h : Shadow s t) (k k' : Nat) : Shadow (adv s k) (adv t k') :=
   ⟨h.o, h.look, h.ts, h.lastOff, h.acc, h.msgs, h.fileId⟩
@@ -251,7 +259,7 @@ theorem Quiet'.trans {a b c : St} (h1 : Quiet' a b) (h2 : Quiet' b c) : Quiet' a
    h2.msgs.trans h1.msgs, h2.fileId.trans h1.fileId, h2.hdr.trans h1.hdr⟩
 theorem Quiet'.adv (s : St) (k : Nat) : Quiet' s (adv s k) := ⟨rfl, rfl, rfl, rfl, rfl, rfl, rfl, rfl⟩
 theorem Quiet'.shadow {s s' t : St} (hq : Quiet' s s') (h : Shadow s t) : Shadow s' t :=
-  ⟨h.o.trans hq.o.symm, h.look.trans hq.look.symm, h.ts.trans hq.ts.symm, h.lastOff.trans hq.lastOff.symm,
+  ⟨h.o.trans hq.o.symm, hq.look ▸ h.look, h.ts.trans hq.ts.symm, h.lastOff.trans hq.lastOff.symm,
    h.acc.trans hq.acc.symm, h.msgs.trans hq.msgs.symm, h.fileId.trans hq.fileId.symm⟩
 
 /-! ### (C)'s state against (D)'s -/
@@ -555,12 +563,11 @@ theorem devs_link {β : Type} (obs : DecProg.Out → β) (hobs : EofBlind obs) (
                 unfold iDevs
                 have hdd : (⟨dd.num, (s.rest.take dd.size).length, dd.idx⟩ : DevDef) = dd := by
                   cases dd; simp only [hblen]
-                simp only [ht.look, hfd, hdd]
+                simp only [ht.look.descs, hfd, hdd]
                 rw [decodeDevField_eq d dd fdsc _ hszr h0 hv]
                 have htk : List.take dd.size (List.take dd.size s.rest) = List.take dd.size s.rest := by
                   rw [List.take_take, Nat.min_self]
                 simp only [hblen, Nat.le_refl, if_true, htk, hf]
-                simp only [ht.look] at h1
                 exact h1)
               simpa [List.append_assoc] using this
           · rw [runExact_read_short _ _ _ (by omega)]
